@@ -71,6 +71,12 @@ def gen_history(rng, tier, schema, hid):
         G.storable_waveform(s)
         s["relative_path"] = b"lib/%s%d.mp3" % (v.encode(), hid)
         L.append("mktrack %s %s" % (v, G.fmt_snapshot(s)))
+    # in half of the histories the stored default grid / default main cue of some tracks differ from the adjusted
+    # ones (Engine does that; no library call does): getters and snapshot() read the adjusted ones and must agree
+    if rng.random() < 0.5:
+        for v in VARS:
+            if rng.random() < 0.7:
+                L.append("t2.skew " + v)
     steps = []   # (index of the set line, var, field, valuetext)
     n = 14 if tier == "quick" else 40
     for v in VARS:
@@ -162,7 +168,7 @@ def tie(ctx):
             continue
         # current real snapshots
         cur = {}
-        pos = 4
+        pos = 4 + sum(1 for l in lines[4:8] if l.startswith("t2.skew "))
         for v in VARS:
             cur[v] = ho[pos]
             hist["getter_checks"] += check_getters(lines, ho, pos, v, viol)
